@@ -361,6 +361,46 @@ theorem denied_proxy_blocks_third_party (H : HashFn) (s s' : Htlc) (c : Ctx) (ps
       rw [he]
       simp [Htlc.proxyAllowed, hl, lookup_put_self, hother]
 
+/-- the proxy flag is what the LAST Allow / Deny call of an address said, whatever was stored before (an earlier Allow
+    does not survive a Deny and vice versa); nobody else's flag, no entry and no funds are touched -/
+theorem proxy_flag_last_call_wins (b : Bool) (s s' : Htlc) (c : Ctx) (ps : List Payout)
+    (h : setProxyUnlock b s c = some (s', ps)) :
+    s'.proxyAllowed c.sender = b ∧ (∀ a, a ≠ c.sender → s'.proxyAllowed a = s.proxyAllowed a) ∧
+      s'.entries = s.entries ∧ ps = [] := by
+  unfold setProxyUnlock at h
+  split at h
+  · cases h
+  · simp only [Option.some.injEq, Prod.mk.injEq] at h
+    obtain ⟨hs, hp⟩ := h
+    subst hs
+    refine ⟨?_, ?_, rfl, hp.symm⟩
+    · simp [Htlc.proxyAllowed, lookup_put_self]
+    · intro a ha
+      simp [Htlc.proxyAllowed, lookup_put_ne ha]
+
+/-- Allow followed by Deny (any calls of other addresses in between left aside): the third party's Unlock fails -
+    the sequence the two-call histories Default→Deny and Deny→Allow do not reach -/
+theorem deny_after_allow_blocks_third_party (H : HashFn) (s s1 s2 : Htlc) (c1 c2 : Ctx) (p1 p2 : List Payout)
+    (_h1 : setProxyUnlock true s c1 = some (s1, p1)) (h2 : setProxyUnlock false s1 c2 = some (s2, p2))
+    (_hsame : c2.sender = c1.sender) (id : Hash) (pre : Bytes) (e : HtlcE) (c3 : Ctx)
+    (he : lookup id s2.entries = some e) (hl : e.hashLocked = c2.sender) (hother : c3.sender ≠ c2.sender) :
+    unlockHtlc H id pre s2 c3 = none :=
+  denied_proxy_blocks_third_party H s1 s2 c2 p2 h2 id pre e c3 he hl hother
+
+/-- after AllowProxyUnlock by `a` (whatever was stored before, a Deny included) the flag does not stand in the way of
+    anybody's Unlock of an entry hash-locked to `a`: the outcome is the one of the hash-locked party's own call -/
+theorem allowed_proxy_admits_third_party (H : HashFn) (s s' : Htlc) (c : Ctx) (ps : List Payout)
+    (h : setProxyUnlock true s c = some (s', ps)) (id : Hash) (pre : Bytes) (e : HtlcE) (c2 : Ctx)
+    (he : lookup id s'.entries = some e) (hl : e.hashLocked = c.sender) :
+    unlockHtlc H id pre s' c2 = unlockHtlc H id pre s' { c2 with sender := c.sender } := by
+  have hflag := (proxy_flag_last_call_wins true s s' c ps h).1
+  unfold unlockHtlc
+  simp only
+  split
+  · rfl
+  · rw [he]
+    simp [hl, hflag]
+
 /-! ## QSR deposits (pillar and sentinel contracts) -/
 
 /-- DepositQsr adds the sent QSR to the sender's deposit and touches nobody else's -/
